@@ -13,6 +13,12 @@ from ..engines.typecase import TypeCase, events_matching
 
 def check(ctx: Ctx) -> None:
     _check(ctx)
+    # fusion of overlapping notes is done by normalise's nesting stacks: the same STACK rules as C07
+    from .c07 import stack_rules, FN as NFN
+    from .c05 import message_loop, output_list_name
+    nfi = ctx.p.func(NFN)
+    ctx.analysed(nfi)
+    stack_rules(ctx, nfi, message_loop(nfi.node), output_list_name(nfi.node))
     from ..engines.typestate import check_wrappers
     check_wrappers(ctx, ['merge'])
 
@@ -26,7 +32,8 @@ def _check(ctx: Ctx) -> None:
         "ORDER the canonical sort key is a tuple that starts with the time and contains the message type, and "
         "MessageType orders NOTE_OFF before NOTE_ON (so abutting notes of one pitch close before they re-open regardless of "
         "merge order); binary_insort inserts by time after equal times (stable); NORM Sequence.merge hands over the absolute view of "
-        "every input, invalidates and normalises on every path. Not decided: union / fusion / duration equalities (value level).")
+        "every input, invalidates and normalises on every path; STACK the nesting stacks of normalise_relative that fuse overlapping "
+        "notes count every note-on and uncount every note-off (same rules as C07). Not decided: union / fusion / duration equalities (value level).")
     ctx.assumptions += ["normalise (C07) fuses overlapping notes; conversions are value-correct"]
 
     q = "AbsoluteSequence.merge"
